@@ -1,5 +1,6 @@
 import PyPred.Props.C12
 import PyPred.Props.C12T
+import PyPred.Props.C12P
 open PyPred
 #print axioms C12_fuel_mono
 #print axioms C12_deterministic
@@ -21,3 +22,14 @@ open PyPred
 #print axioms C12_cost_le_exp
 #print axioms C12_cost_fuel_mono
 #print axioms C12_cost_linear_aon
+#print axioms C12_cost_quadratic
+#print axioms C12_cost_polynomial
+#print axioms C12_cost_quadratic_size
+#print axioms C12_cost_quadratic_any_fuel
+#print axioms C12_invocations_quadratic
+#print axioms C12_cost_potential
+#print axioms C12_potential_bounds
+#print axioms C12_cost_linear_fixpoint
+#print axioms C12_step_invariant
+#print axioms C12_cost_lower_exact
+#print axioms C12_cost_lower_quadratic
